@@ -4,11 +4,15 @@ import ao_corr
 
 def explore(run, lean):
     ao_corr.explore(run, "C12", 200 if run.tier == "quick" else 4000)
-    run.extra["rule"] = ("scenarios: one control thread issuing 2-7 calls (timed post_fifo/post_lifo with period 1-3 ticks, times 0-3, "
+    ao_corr.explore_handler_armed(run, 80 if run.tier == "quick" else 2000)
+    run.extra["rule"] = ("(a) scenarios: one control thread issuing 2-7 calls (timed post_fifo/post_lifo with period 1-3 ticks, times 0-3, "
                          "deferred or not; cancel_event / cancel_events with the identical or an equal-but-distinct id / name object; "
                          "stop()), tracked-source capacity 2-6, optional plain poster; real ActiveObject under the deterministic "
                          "scheduler with a virtual clock (PCT / random choosers, clock advanced lazily or at random); recorded "
-                         "schedule replayed on the Lean model, compared per step and on the final timers / queue / results")
+                         "schedule replayed on the Lean model, compared per step and on the final timers / queue / results; "
+                         "(b) handler-armed stream (implementation-side oracle only): 1-3 queued ARM events whose handler arms a timed "
+                         "source, stop() from another thread racing those steps, or from a handler; after stop() returns no step, no "
+                         "timer post, no source with its run flag set")
     run.assumptions.append("virtual time: sleep(p) wakes exactly p ticks later; real-clock drift (execution time per cycle) is not modelled")
 
 
